@@ -363,6 +363,13 @@ PLANS = {
                      "robust_orientation, insphere, insphere_lifted, insphere_distance, robust_insphere); TLC computes the "
                      "exact integer sign and the decidability band. distinct non-trivial = distinct (D, s, points, query)",
                 nontrivial=lambda e: ((e["ev"], json.dumps(e.get("args"), sort_keys=True)) if e["ev"] == "Pred" else None)),
+    "C16": dict(level="model_checking", families=[("toroidal", 14, 16)],
+                rule="toroidal (canonicalised) builds in D=2,3 from lattice points far outside the box (up to 2^20 periods), "
+                     "negative, exactly on faces, with periods 3..12 lattice units at scales 2^-3..2^1 (so 0.375 .. 24), an "
+                     "off-lattice probe just below a face, followed by three later insertions outside the box; TLC checks "
+                     "w = m mod L exactly, the half-open box, idempotence and the C01 certificate of the wrapped set. "
+                     "distinct non-trivial = distinct successful toroidal constructions",
+                nontrivial=_key_construct),
     "C17": dict(level="model_checking", pure_families=[("orderings", 14, 16)],
                 rule="the complete table cell -> hilbert index for every (D, bits) with 2^(D*bits) <= 4096 (quick) / 65536 "
                      "(thorough), D=1..5, checked by TLC for bijectivity and unit steps (exhaustive over the grid); every "
